@@ -10,7 +10,6 @@ parser state that can influence the result:
   * `ctx` (`context`), `shorthand` (`shorthand_quote_stack`), `quoteStackEmpty` (`quote_stack`):
     they decide when `depth` is reset between top-level data, and `ctx` is also where the
     `debug_assert!(matches!(popped, ..Tick(_)))` of the shorthand handlers can fail;
-  * the per-frame datum-comment counter is a `u8` (overflow at 256);
   * the `@doc` comment machinery is not modelled (`unmodelled`).
 All recursion is on an explicit fuel bounded by the number of tokens.
 -/
@@ -48,7 +47,6 @@ inductive ReadErrKind
   | convert
   | unmodelled                      -- `@doc` comments
   | assertFailed                    -- a `debug_assert!` of the parser fails (panic in debug builds)
-  | commentOverflow                 -- 256th `#;` in one list: `u8` overflow (panic in debug builds)
   | outOfFuel                       -- never produced
   deriving DecidableEq, Repr
 
@@ -300,6 +298,13 @@ def popTick (kind : Nat) (ctx : List Ctx) : Bool × List Ctx :=
   | [] => (true, [])
   | c :: cs => (isTickCtx kind c, cs)
 
+/-- the end of a shorthand handler: pop the context it pushed (checking the `debug_assert!`),
+    restore the bookkeeping with `fixSt`, and return the wrapped value -/
+def finishTick (kind : Nat) (r : PRes) (v : Except ReadErr PVal) (sp : Span) (fixSt : PSt → PSt) : PRes :=
+  let st3 := fixSt { r.st with ctx := (popTick kind r.st.ctx).2 }
+  if (popTick kind r.st.ctx).1 then ⟨some v, st3, r.rest⟩
+  else ⟨some (.error ⟨.assertFailed, sp.1, sp.2⟩), st3, r.rest⟩
+
 mutual
 
 /-- `Parser::next` -/
@@ -320,36 +325,26 @@ def pShort : Nat → PSt → (kind : Nat) → (stackLen : Nat) → (top : Bool) 
       ⟨some (wrapNext r.val sp (quoteList name)), r.st, r.rest⟩
     else if kind == 0 then
       let last := st.qctx
-      let st1 : PSt := { st with shorthand := st.shorthand + 1,
+      let r := pNext f { st with shorthand := st.shorthand + 1,
                                  qctx := if st.depth == 0 then true else st.qctx,
-                                 ctx := .quoteTick stackLen :: st.ctx }
-      let r := pNext f st1 toks
+                                 ctx := .quoteTick stackLen :: st.ctx } toks
       -- top level: `construct_quote_vec` + `maybe_lower` = a list expression;
       -- inside a list: `construct_quote` = `ExprKind::Quote` located at the tick (not a list expression)
-      let v := wrapNext r.val sp (fun d =>
-        if top then quoteList t!"quote" d else { d := .list [.sym t!"quote", d], sp })
-      let (ok, ctx') := popTick 0 r.st.ctx
-      let st3 : PSt := { r.st with shorthand := r.st.shorthand - 1, qctx := last, ctx := ctx' }
-      if ok then ⟨some v, st3, r.rest⟩ else ⟨some (.error ⟨.assertFailed, sp.1, sp.2⟩), st3, r.rest⟩
+      finishTick 0 r
+        (wrapNext r.val sp (fun d =>
+          if top then quoteList t!"quote" d else { d := .list [.sym t!"quote", d], sp }))
+        sp (fun s => { s with shorthand := s.shorthand - 1, qctx := last })
     else if kind == 2 then
-      let st1 : PSt := ({ st with ctx := .quasiTick stackLen :: st.ctx }).incr
-      let r := pNext f st1 toks
-      let v := wrapNext r.val sp (quoteList symQuasi)
-      let (ok, ctx') := popTick 2 r.st.ctx
-      let st3 : PSt := ({ r.st with ctx := ctx' }).decr
-      if ok then ⟨some v, st3, r.rest⟩ else ⟨some (.error ⟨.assertFailed, sp.1, sp.2⟩), st3, r.rest⟩
+      let r := pNext f (({ st with ctx := .quasiTick stackLen :: st.ctx } : PSt).incr) toks
+      finishTick 2 r (wrapNext r.val sp (quoteList symQuasi)) sp PSt.decr
     else
       -- unquote (1) / unquote-splicing (3).  Inside a list the depth is decremented before the
       -- context push, at top level after it: the order is not observable.
       let tickCtx := if kind == 1 then Ctx.unquoteTick stackLen else Ctx.splicingTick stackLen
-      let st1 : PSt := ({ st with ctx := tickCtx :: st.ctx }).decr
-      let r := pNext f st1 toks
+      let r := pNext f (({ st with ctx := tickCtx :: st.ctx } : PSt).decr) toks
       let name := if r.st.raw then (if kind == 1 then symRawUnquote else symRawSplicing)
                   else (if kind == 1 then symUnquote else symSplicing)
-      let v := wrapNext r.val sp (quoteList name)
-      let (ok, ctx') := popTick kind r.st.ctx
-      let st3 : PSt := ({ r.st with ctx := ctx' }).incr
-      if ok then ⟨some v, st3, r.rest⟩ else ⟨some (.error ⟨.assertFailed, sp.1, sp.2⟩), st3, r.rest⟩
+      finishTick kind r (wrapNext r.val sp (quoteList name)) sp PSt.incr
 
 /-- `get_next_and_maybe_wrap_in_doc`: `dcs` = spans of the pending top-level `#;` -/
 def pTop : Nat → PSt → List Span → List LexItem → PRes
@@ -418,9 +413,7 @@ def pList : Nat → PSt → List Frame → Frame → Span → List LexItem → P
             if cur.comment > 0 then fail (.syntax .dotAfterComment) sp
             else pList f st stack { cur with dot := some (cur.len, sp) } sp toks
       | .comment _ => pList f st stack cur sp toks
-      | .dcomment =>
-        if cur.comment ≥ 255 then fail .commentOverflow sp
-        else pList f st stack { cur with comment := cur.comment + 1 } sp toks
+      | .dcomment => pList f st stack { cur with comment := cur.comment + 1 } sp toks
       | .synQuote => short 4
       | .synQuasi => short 5
       | .synUnquote => short 6
